@@ -17,6 +17,8 @@ type handlerRec struct {
 	Panic  bool
 	// Read: read the header being deleted through GetByHeight (the documented guarantee).
 	Read bool
+	// Locked: guard the record with a mutex (parallel deletion path calls handlers concurrently).
+	Locked bool
 
 	Calls []handlerCall
 	w     *World
@@ -42,6 +44,10 @@ func (h *handlerRec) attach(w *World) {
 			got, err := w.St.GetByHeight(rctx, height)
 			cancel()
 			c.Readable = classifyGet(got, err, w.C.At(height))
+		}
+		if h.Locked {
+			handlerMu.Lock()
+			defer handlerMu.Unlock()
 		}
 		n := len(h.Calls) + 1
 		if h.FailAt != 0 && n == h.FailAt {
